@@ -317,6 +317,10 @@ func GenOp(t *rapid.T, w *World, p *Profile) Op {
 			sort.Slice(vs, func(i, j int) bool { return vs[i] < vs[j] })
 			return Op{Kind: "pin", N: vs[0]}
 		}
+		if len(w.WOps) == 0 && w.Vers[w.Cur] != nil && rapid.IntRange(0, 2).Draw(t, "pinWriter") == 0 {
+			// Export called on the MutableTree itself (it embeds the ImmutableTree of the version it sits on)
+			return Op{Kind: "pin", N: w.Cur, Flag: true}
+		}
 		return Op{Kind: "pin", N: rapid.SampledFrom(w.Retained()).Draw(t, "pinv")}
 	case "vread":
 		// a version number that was rolled back and committed again since it was last asked for: the same question again
